@@ -3233,5 +3233,638 @@ theorem wired_addGlyph {h : Heap} (w : Wired h) {l s : Id} (kl : h.kindOf l = so
   · show (spawn h1 l _).next = h.next + 1
     simp [n1]
 
+
+/-! ### Operations -/
+
+theorem wired_same {h h' : Heap} (w : Wired h) (hg : ∀ i, h'.get i = h.get i) (hr : h'.regs = h.regs) : Wired h' :=
+  wired_regs w hg (fun r hm => Or.inl (hr ▸ hm))
+
+theorem wired_mark {h : Heap} (w : Wired h) (x : Id) : Wired (mark h x) := wired_same w (fun i => by simp) (by simp)
+theorem wired_setDirty {h : Heap} (w : Wired h) (x : Id) : Wired (h.setDirty x) := wired_same w (fun i => by simp) (by simp)
+
+theorem child_leaf {k : Kind} (e : k.isChild = true) : k.isLeaf = true := by
+  cases k <;> simp [Kind.isChild, Kind.isLeaf] at e ⊢
+
+theorem fontOf_none_pFont {h : Heap} {x : Id} {n : Node} (e : h.get x = some n) (k : n.kind = .guideline)
+    (hf : fontOf h x = none) : n.pFont = none := by
+  rw [fontOf_leaf_via e (by simp [k, Kind.viaLayer])] at hf
+  cases ef : n.pFont with
+  | none => rfl
+  | some f => simp [ef] at hf
+
+theorem wired_insertStep {h : Heap} (w : Wired h) (p x : Id) : Wired (insertStep h p x).1 := by
+  unfold insertStep
+  cases ep : h.kindOf p with
+  | none => exact w
+  | some kp =>
+    cases ex : h.get x with
+    | none => cases kp <;> exact w
+    | some nx =>
+      obtain ⟨np, enp, knp⟩ := kindOf_some ep
+      cases kp with
+      | glyph =>
+        simp only
+        split
+        · exact w
+        · rename_i hchild
+          simp only [Bool.not_eq_true, Bool.not_eq_false] at hchild
+          split
+          · exact w
+          · rename_i hnk
+            split
+            · exact w
+            · rename_i hng
+              split
+              · exact w
+              · rename_i hnf
+                simp only
+                refine wired_mark ?_ p
+                have kleaf := child_leaf hchild
+                have eg : nx.pGlyph = none := by simpa using hng
+                have lo : owner nx = none := by
+                  cases hk : nx.kind <;> simp [owner, hk, eg, Kind.isChild] at hchild ⊢
+                  -- a guideline: the font reference must be empty too
+                  have hf : fontOf h x = none := by
+                    cases hfo : fontOf h x with
+                    | none => rfl
+                    | some f => exact absurd ⟨hk, by simp [hfo]⟩ hnf
+                  exact fontOf_none_pFont ex hk hf
+                obtain ⟨_, l2, l3, l4, l5⟩ := w.loose x nx ex lo
+                rw [attachChild_eq]
+                have hxk : x ∉ np.kids := by rw [← kidsOf_eq enp]; exact hnk
+                refine wired_adopt w enp ex kleaf lo rfl rfl (by simp [knp, allowed, kleaf]) hxk ?_
+                refine ⟨by simp [leaf_no_kids w.toStruct ex kleaf], owner_leaf_glyph (n := { nx with pGlyph := some p, pLayer := none, pLayerSet := none, pFont := none }) kleaf rfl, ?_, ?_, ?_⟩
+                · refine ⟨fun hh => by simp [kleaf] at hh, fun hk => ?_, fun hk => ?_, fun hk => ?_⟩ <;>
+                    (simp only at hk; rw [hk] at kleaf; simp [Kind.isLeaf] at kleaf)
+                · intro a; simp [ancVia, ep, l5]
+                · refine ⟨fun hk => ?_, fun hk => ?_⟩ <;> (simp only at hk; rw [hk] at kleaf; simp [Kind.isLeaf] at kleaf)
+      | font =>
+        simp only
+        split
+        · exact w
+        · rename_i hgl
+          simp only [ne_eq, Decidable.not_not] at hgl
+          split
+          · exact w
+          · rename_i hnf
+            split
+            · exact w
+            · rename_i hng
+              simp only
+              refine wired_mark ?_ p
+              have kleaf : nx.kind.isLeaf = true := by simp [hgl, Kind.isLeaf]
+              have eg : nx.pGlyph = none := by simpa using hng
+              have hf : fontOf h x = none := by
+                cases hfo : fontOf h x with
+                | none => rfl
+                | some f => simp [hfo] at hnf
+              have ef := fontOf_none_pFont ex hgl hf
+              have lo : owner nx = none := by simp [owner, hgl, eg, ef]
+              obtain ⟨_, l2, l3, l4, l5⟩ := w.loose x nx ex lo
+              rw [attachFontGuideline_eq]
+              have hxk : x ∉ np.kids := fun hm => by
+                have := w.down p x ⟨np, enp, Or.inl knp⟩ (by simp) (by rw [kidsOf_eq enp]; exact hm)
+                rw [ownerOf_eq ex, lo] at this; cases this
+              refine wired_adopt w enp ex kleaf lo rfl rfl (by simp [knp, hgl, allowed]) hxk ?_
+              refine ⟨by simp [leaf_no_kids w.toStruct ex kleaf], by simp [owner, hgl, eg], ?_, ?_, ?_⟩
+              · simp [hgl, Kind.isLeaf]
+              · intro a; simp [ancVia, ep, eg, l2, l3, l5]
+              · simp [hgl]
+      | layerSet => exact w
+      | layer => exact w
+      | contour => exact w
+      | component => exact w
+      | anchor => exact w
+      | guideline => exact w
+      | image => exact w
+      | lib => exact w
+
+theorem wired_insertAll {p : Id} (xs : List Id) : ∀ {h : Heap}, Wired h → Wired (insertAll h p xs).1 := by
+  induction xs with
+  | nil => intro h w; exact w
+  | cons x xs ih =>
+    intro h w
+    unfold insertAll
+    have w1 := wired_insertStep w p x
+    split
+    · rename_i h' heq
+      rw [heq] at w1
+      exact ih w1
+    · rename_i r hne
+      exact w1
+
+
+/-! clearing a role -/
+
+theorem kindOf_cleared_map {o : Option Node} {k : Kind} (e : o.map Node.kind = some k) :
+    (o.map Node.cleared).map Node.kind = some k := by
+  cases o <;> simp [Node.cleared] at e ⊢; exact e
+
+theorem kindOf_unlist (h : Heap) (p x i : Id) : (h.unlist p x).kindOf i = h.kindOf i := by
+  simp only [Heap.kindOf, get_unlist]
+  by_cases e : p = i
+  · subst e; cases h.get p <;> simp
+  · simp [e]
+
+theorem kindOf_detachChild (h : Heap) (g x i : Id) : (detachChild h g x).kindOf i = h.kindOf i := by
+  simp only [Heap.kindOf, get_detachChild]
+  by_cases c : x = i ∧ glyphOf h x = some g
+  · obtain ⟨c1, c2⟩ := c; subst c1
+    simp only [c2, and_self, if_true]
+    cases h.get x <;> simp [Node.cleared]
+  · simp [c]
+
+theorem kindOf_detachSingleton (h : Heap) (p x i : Id) : (detachSingleton h p x).kindOf i = h.kindOf i := by
+  simp only [Heap.kindOf, get_detachSingleton]
+  by_cases c : x = i ∧ dispOf h x ≠ none
+  · obtain ⟨c1, c2⟩ := c; subst c1
+    simp only [c2, ne_eq, not_false_eq_true, and_self, if_true]
+    cases h.get x <;> simp [Node.cleared]
+  · simp [c]
+
+theorem kindOf_removeChild {h : Heap} {g x i : Id} {k : Kind} (e : h.kindOf i = some k) :
+    (removeChild h g x).kindOf i = some k := by
+  have : (removeChild h g x).kindOf i = ((detachChild h g x).unlist g x).kindOf i := by
+    simp only [Heap.kindOf, removeChild, get_mark, get_detachChild_unlist]
+  rw [this, kindOf_unlist, kindOf_detachChild]; exact e
+
+theorem wired_removeAny_glyph {h : Heap} (w : Wired h) {g x : Id} (kg : h.kindOf g = some .glyph) :
+    Wired (removeAny h g x) ∧ (removeAny h g x).kindOf g = some .glyph := by
+  unfold removeAny
+  simp only [kg, reduceCtorEq, if_false]
+  exact ⟨wired_removeChild w kg, kindOf_removeChild kg⟩
+
+theorem wired_clearRole_glyph {g : Id} (xs : List Id) :
+    ∀ {h : Heap}, Wired h → h.kindOf g = some .glyph →
+      Wired (xs.foldl (fun h x => removeAny h g x) h) ∧ (xs.foldl (fun h x => removeAny h g x) h).kindOf g = some .glyph := by
+  induction xs with
+  | nil => intro h w kg; exact ⟨w, kg⟩
+  | cons x xs ih =>
+    intro h w kg
+    rw [List.foldl_cons]
+    obtain ⟨w1, k1⟩ := wired_removeAny_glyph (x := x) w kg
+    exact ih w1 k1
+
+theorem get_removeFontGuideline (h : Heap) (f x i : Id) :
+    (removeFontGuideline h f x).get i = ((detachSingleton h f x).unlist f x).get i := by
+  simp [removeFontGuideline, get_detachSingleton_unlist]
+
+theorem wired_clearRole_font {f : Id} (xs : List Id) (hnd : xs.Nodup) :
+    ∀ {h : Heap}, Wired h → h.kindOf f = some .font → (∀ x ∈ xs, x ∈ h.kidsOf f ∧ h.kindOf x = some .guideline) →
+      Wired (xs.foldl (fun h x => removeAny h f x) h) := by
+  induction xs with
+  | nil => intro h w _ _; exact w
+  | cons x xs ih =>
+    intro h w kf hx
+    rw [List.foldl_cons]
+    obtain ⟨hxk, kx⟩ := hx x (by simp)
+    obtain ⟨nx, ex, knx⟩ := kindOf_some kx
+    obtain ⟨nf, ef, knf⟩ := kindOf_some kf
+    have kleaf : nx.kind.isLeaf = true := by simp [knx, Kind.isLeaf]
+    have ho := w.down f x ⟨nf, ef, Or.inl knf⟩ (by simp) hxk
+    have hra : removeAny h f x = removeFontGuideline h f x := by simp [removeAny, kf]
+    rw [hra]
+    have w1 := wired_removeFontGuideline w ex kleaf ho kf
+    have hxf : x ≠ f := fun e => by rw [e, kf] at kx; cases kx
+    have hc := centre_of_owned_by_font w.toStruct ho kf
+    have gi : ∀ i, i ≠ x → (removeFontGuideline h f x).get i =
+        if f = i then (h.get f).map (fun n => { n with kids := n.kids.filter (· ≠ x) }) else h.get i := by
+      intro i hi
+      rw [get_removeFontGuideline, get_unlist, get_detachSingleton, get_detachSingleton]
+      simp [Ne.symm hi, hxf]
+    refine ih (List.nodup_cons.mp hnd).2 w1 ?_ ?_
+    · simp [Heap.kindOf, gi f (Ne.symm hxf), ef, knf]
+    · intro y hy
+      have hyx : y ≠ x := fun e => (List.nodup_cons.mp hnd).1 (e ▸ hy)
+      obtain ⟨hyk, ky⟩ := hx y (by simp [hy])
+      have hyf : y ≠ f := fun e => by rw [e, kf] at ky; cases ky
+      refine ⟨?_, ?_⟩
+      · simp only [Heap.kidsOf, gi f (Ne.symm hxf), if_true, ef, Option.map_some]
+        rw [kidsOf_eq ef] at hyk
+        simp [hyk, hyx]
+      · simp only [Heap.kindOf, gi y hyx, Ne.symm hyf, if_false]; exact ky
+
+theorem kidsOfKind_spec {h : Heap} {p : Id} {k : Kind} {x : Id} (hx : x ∈ h.kidsOfKind p k) :
+    x ∈ h.kidsOf p ∧ h.kindOf x = some k := by
+  unfold Heap.kidsOfKind at hx
+  simpa using List.mem_filter.mp hx
+
+theorem wired_clearRole {h : Heap} (w : Wired h) (p : Id) (role : Kind)
+    (hk : h.kindOf p = some .glyph ∨ (h.kindOf p = some .font ∧ role = .guideline)) :
+    Wired (clearRole h p role) ∧ (∀ k, h.kindOf p = some k → k = .glyph → (clearRole h p role).kindOf p = some .glyph) := by
+  unfold clearRole
+  rcases hk with kg | ⟨kf, hr⟩
+  · obtain ⟨w1, k1⟩ := wired_clearRole_glyph (h.kidsOfKind p role) w kg
+    exact ⟨w1, fun _ _ _ => k1⟩
+  · subst hr
+    refine ⟨wired_clearRole_font (h.kidsOfKind p .guideline) ?_ w kf (fun x hx => kidsOfKind_spec hx), ?_⟩
+    · unfold Heap.kidsOfKind
+      obtain ⟨nf, ef, _⟩ := kindOf_some kf
+      rw [kidsOf_eq ef]
+      exact (w.kidsNodup p nf ef).filter _
+    · intro k e1 e2; rw [kf] at e1; cases e1; cases e2
+
+
+theorem kindOf_ensure {h : Heap} {p : Id} {k : Kind} {i : Id} {kk : Kind} (e : h.kindOf i = some kk) :
+    (ensure h p k).kindOf i = some kk := by
+  unfold ensure
+  split
+  · exact e
+  · split
+    · exact kindOf_spawn e
+    · exact kindOf_spawn e
+    · exact kindOf_spawn e
+    · exact e
+
+theorem kindOf_mark {h : Heap} (x i : Id) : (mark h x).kindOf i = h.kindOf i := by simp [Heap.kindOf]
+theorem kindOf_setDirty {h : Heap} (x i : Id) : (h.setDirty x).kindOf i = h.kindOf i := by simp [Heap.kindOf]
+
+theorem kidOfKind_spec {h : Heap} {p : Id} {k : Kind} {x : Id} (e : h.kidOfKind p k = some x) :
+    x ∈ h.kidsOf p ∧ h.kindOf x = some k := by
+  unfold Heap.kidOfKind at e
+  have h1 := List.find?_some e
+  have h2 := List.mem_of_find?_eq_some e
+  simp only [decide_eq_true_eq] at h1
+  exact ⟨h2, h1⟩
+
+/-- the layer set of a font, as `newLayer/delLayer` find it -/
+theorem layerSetOfFont_spec {h : Heap} (w : Wired h) {f s : Id} (e : layerSetOfFont h f = some s) :
+    h.kindOf f = some .font ∧ h.kindOf s = some .layerSet ∧ h.ownerOf s = some f := by
+  unfold layerSetOfFont at e
+  split at e
+  · rename_i kf
+    obtain ⟨hs, ks⟩ := kidOfKind_spec e
+    obtain ⟨nf, ef, knf⟩ := kindOf_some kf
+    exact ⟨kf, ks, w.down f s ⟨nf, ef, Or.inl knf⟩ (by simp) hs⟩
+  · cases e
+
+theorem liveLayer_spec {h : Heap} {l : Id} (e : liveLayer h l = true) :
+    h.kindOf l = some .layer ∧ ∃ s, h.storedLayerSet l = some s := by
+  unfold liveLayer at e
+  simp only [decide_eq_true_eq, Bool.and_eq_true, Option.isSome_iff_exists] at e
+  exact e
+
+theorem wired_openLayers (f s : Id) (layers : List (String × List String)) :
+    ∀ {h : Heap}, Wired h → h.kindOf s = some .layerSet → h.ownerOf s = some f → h.kindOf f = some .font →
+      Wired (layers.foldl (fun h ln =>
+        let l := h.next
+        let h := addLayer h f s ln.1
+        { h with unloaded := AL.set h.unloaded l ln.2 }) h) ∧
+      (layers.foldl (fun h ln =>
+        let l := h.next
+        let h := addLayer h f s ln.1
+        { h with unloaded := AL.set h.unloaded l ln.2 }) h).kindOf f = some .font := by
+  induction layers with
+  | nil => intro h w _ _ kf; exact ⟨w, kf⟩
+  | cons ln lns ih =>
+    intro h w ks os kf
+    rw [List.foldl_cons]
+    obtain ⟨w1, k1, o1, _, _⟩ := wired_addLayer w ln.1 ks os kf
+    have w2 : Wired { addLayer h f s ln.1 with unloaded := AL.set (addLayer h f s ln.1).unloaded h.next ln.2 } :=
+      wired_same w1 (fun i => rfl) rfl
+    exact ih w2 (k1 s _ ks) (o1 s f os) (k1 f _ kf)
+
+
+theorem wired_empty : Wired {} := by
+  refine ⟨⟨?_, ?_, ?_, ?_, ?_, ?_, ?_, ?_⟩, ?_⟩ <;> intros <;> simp_all [Heap.get, Heap.kidsOf]
+
+/-- the layer a glyph object's layer reference points to is a live layer -/
+theorem layer_of_glyph_live {h : Heap} (w : Wired h) {g l : Id} (kg : h.kindOf g = some .glyph)
+    (hl : h.storedLayer g = some l) : h.kindOf l = some .layer ∧ ∃ s, h.storedLayerSet l = some s := by
+  obtain ⟨ng, eg, kng⟩ := kindOf_some kg
+  have pl : ng.pLayer = some l := by simpa [Heap.storedLayer, eg] using hl
+  obtain ⟨E1, E2, E3⟩ := exact_glyph w.toStruct eg kng
+  have ho : h.ownerOf g = some l := by rw [ownerOf_eq eg]; simp [owner, kng, pl]
+  have kl : h.kindOf l = some .layer := ancOf_kind (by rw [← E1]; exact pl)
+  obtain ⟨nl, el, knl⟩ := kindOf_some kl
+  have hfull := ((w.full g ng eg).1 kng (by simp [pl])).1
+  rw [E2, ancOf_ne w.toStruct ho (by rw [kl]; simp), ← (exact_layer w.toStruct el knl).1] at hfull
+  refine ⟨kl, ?_⟩
+  cases e : nl.pLayerSet with
+  | none => exact absurd e hfull
+  | some s => exact ⟨s, by simp [Heap.storedLayerSet, el, e]⟩
+
+theorem wired_killNamed {h : Heap} (w : Wired h) {l s r : Id} (kl : h.kindOf l = some .layer)
+    (hs : h.storedLayerSet l = some s) (hr : r ∈ h.kidsOf l) (kr : h.kindOf r = some .glyph) :
+    Wired (killGlyph h l r) := by
+  obtain ⟨f, c⟩ := layerCtx_of_live w.toStruct kl hs
+  obtain ⟨nr, er, knr, ho, hd⟩ := glyph_of_live_layer w c hr kr
+  exact wired_killGlyph w er knr ho (by simp) hd
+
+theorem wired_dropUnloaded {h : Heap} (w : Wired h) (l : Id) (name : String) : Wired (h.dropUnloaded l name) :=
+  wired_same w (fun i => rfl) rfl
+theorem wired_setName {h : Heap} (w : Wired h) (x : Id) (name : String) : Wired (h.setName x name) :=
+  wired_same w (fun i => rfl) rfl
+
+theorem step_newFont {h : Heap} (w : Wired h) : Wired (step h .newFont).1 := by
+  simp only [step]
+  obtain ⟨w1, k1, kf, ks, os, n1⟩ := wired_newFontCore w
+  obtain ⟨w2, k2, _, _, _⟩ := wired_addLayer w1 "public.default" ks os kf
+  have kf2 : (mark ((addLayer (newFontCore h) h.next (h.next + 1) "public.default").setDirty (h.next + 1 + 1)) (h.next + 1)).kindOf h.next
+      = some .font := by rw [kindOf_mark, kindOf_setDirty]; exact k2 _ _ kf
+  refine wired_ensure (wired_mark (wired_setDirty w2 _) _) ?_ ?_ ?_
+  · intro _; rfl
+  · intro hk; rw [kf2] at hk
+  · intro _; rfl
+
+theorem step_openFont {h : Heap} (w : Wired h) (layers) : Wired (step h (.openFont layers)).1 := by
+  simp only [step]
+  obtain ⟨w1, k1, kf, ks, os, n1⟩ := wired_newFontCore w
+  obtain ⟨w2, kf2⟩ := wired_openLayers h.next (h.next + 1) layers w1 ks os kf
+  refine wired_ensure w2 ?_ ?_ ?_
+  · intro _; rfl
+  · intro hk; rw [kf2] at hk
+  · intro _; rfl
+
+theorem step_newLayer {h : Heap} (w : Wired h) (f name) : Wired (step h (.newLayer f name)).1 := by
+  simp only [step]
+  cases e : layerSetOfFont h f with
+  | none => exact w
+  | some s =>
+    obtain ⟨kf, ks, os⟩ := layerSetOfFont_spec w e
+    simp only
+    cases e2 : h.findNamed s .layer name with
+    | some _ => exact w
+    | none =>
+      obtain ⟨w1, _⟩ := wired_addLayer w name ks os kf
+      exact wired_mark (wired_setDirty w1 _) _
+
+theorem step_delLayer {h : Heap} (w : Wired h) (f name) : Wired (step h (.delLayer f name)).1 := by
+  simp only [step]
+  cases e : layerSetOfFont h f with
+  | none => exact w
+  | some s =>
+    obtain ⟨kf, ks, os⟩ := layerSetOfFont_spec w e
+    simp only
+    cases e2 : h.findNamed s .layer name with
+    | none => exact w
+    | some l =>
+      obtain ⟨hl, kl⟩ := findNamed_some e2
+      obtain ⟨nS, eS, knS⟩ := kindOf_some ks
+      have ol := w.down s l ⟨nS, eS, Or.inr (by rw [← ownerOf_eq eS, os]; simp)⟩ (by simp) hl
+      exact wired_mark (wired_killLayer w ⟨kl, ol, ks, os, kf⟩ (by simp) (fun k _ => by simp)) _
+
+theorem step_renameLayer {h : Heap} (w : Wired h) (l name) : Wired (step h (.renameLayer l name)).1 := by
+  simp only [step]
+  split
+  · exact w
+  · split
+    · exact w
+    · exact wired_mark (wired_setName w l name) _
+
+theorem step_newGlyph {h : Heap} (w : Wired h) (l name) : Wired (step h (.newGlyph l name)).1 := by
+  simp only [step]
+  split
+  · exact w
+  · split
+    · exact w
+    · rename_i _ hlive
+      obtain ⟨kl, s, hs⟩ := liveLayer_spec (by simpa using hlive)
+      exact wired_mark (wired_setDirty (wired_addGlyph w kl hs name).1 _) _
+
+theorem step_getGlyph {h : Heap} (w : Wired h) (l name spec) : Wired (step h (.getGlyph l name spec)).1 := by
+  simp only [step]
+  split
+  · exact w
+  · split
+    · exact w
+    · rename_i _ hlive
+      obtain ⟨kl, s, hs⟩ := liveLayer_spec (by simpa using hlive)
+      split
+      · exact w
+      · split
+        · obtain ⟨w1, _, kg, _⟩ := wired_addGlyph w kl hs name
+          exact (wired_spawnChildren w1 kg spec).1
+        · exact w
+
+theorem step_delGlyph {h : Heap} (w : Wired h) (l name) : Wired (step h (.delGlyph l name)).1 := by
+  simp only [step]
+  split
+  · exact w
+  · split
+    · exact w
+    · rename_i _ hlive
+      obtain ⟨kl, s, hs⟩ := liveLayer_spec (by simpa using hlive)
+      split
+      · rename_i g e
+        obtain ⟨hg, kg⟩ := findNamed_some e
+        exact wired_mark (wired_killNamed w kl hs hg kg) _
+      · split
+        · exact wired_mark (wired_dropUnloaded w l name) _
+        · exact w
+
+theorem step_renameGlyph {h : Heap} (w : Wired h) (g name) : Wired (step h (.renameGlyph g name)).1 := by
+  simp only [step]
+  split
+  · exact w
+  · rename_i kg
+    simp only [ne_eq, Decidable.not_not] at kg
+    split
+    · exact w
+    · have w0 : Wired (h.setName g name) := wired_setName w g name
+      split
+      · rename_i c l hc hl
+        have kg' : (h.setName g name).kindOf g = some .glyph := kg
+        obtain ⟨kl, s, hs⟩ := layer_of_glyph_live w0 kg' hl
+        refine wired_mark (wired_dropUnloaded ?_ l name) _
+        split
+        · rename_i r e
+          have h1 := List.find?_some e
+          have h2 := List.mem_of_find?_eq_some e
+          simp only [decide_eq_true_eq] at h1
+          exact wired_killNamed w0 kl hs h2 h1.1
+        · exact w0
+      · exact wired_setDirty w0 _
+
+
+theorem step_insertGlyph {h : Heap} (w : Wired h) (l src name) : Wired (step h (.insertGlyph l src name)).1 := by
+  simp only [step]
+  split
+  · exact w
+  · rename_i hk
+    simp only [not_or, ne_eq, Decidable.not_not] at hk
+    split
+    · exact w
+    · rename_i hlive
+      obtain ⟨kl, s, hs⟩ := liveLayer_spec (by simpa using hlive)
+      obtain ⟨w1, k1, kg, _⟩ := wired_addGlyph w kl hs (name.getD (h.nameOf src))
+      generalize addGlyph h l (name.getD (h.nameOf src)) = h1 at w1 k1 kg
+      have w2 := wired_mark (wired_setDirty w1 h.next) l
+      have kg2 : (mark (h1.setDirty h.next) l).kindOf h.next = some .glyph := by
+        rw [kindOf_mark, kindOf_setDirty]; exact kg
+      have ks2 : (mark (h1.setDirty h.next) l).kindOf src = some .glyph := by
+        rw [kindOf_mark, kindOf_setDirty]; exact k1 _ _ hk.2
+      generalize mark (h1.setDirty h.next) l = h2 at w2 kg2 ks2
+      obtain ⟨w3, k3⟩ := wired_spawnChildren w2 kg2
+        ([Kind.contour, .component, .anchor, .guideline].map (fun k => (h.kidsOfKind src k).length) ++ [1, 1])
+      have ks3 := k3 _ _ ks2
+      generalize spawnChildren h2 h.next _ = h3 at w3 ks3
+      have w4 : Wired (ensure h3 src .image) :=
+        wired_ensure w3 (fun _ => by simp [Kind.isLeaf]) (fun e => by rw [ks3] at e; cases e)
+          (fun e => by rw [ks3] at e; cases e)
+      have ks4 : (ensure h3 src .image).kindOf src = some .glyph := kindOf_ensure ks3
+      have w5 : Wired (ensure (ensure h3 src .image) src .lib) :=
+        wired_ensure w4 (fun _ => by simp [Kind.isLeaf]) (fun _ => rfl) (fun _ => rfl)
+      exact wired_mark w5 _
+
+theorem step_new {h : Heap} (w : Wired h) (k) : Wired (step h (.new k)).1 := by
+  simp only [step]
+  split
+  · exact wired_alloc w k
+  · exact w
+
+theorem step_remove {h : Heap} (w : Wired h) (p x) : Wired (step h (.remove p x)).1 := by
+  simp only [step]
+  cases ep : h.kindOf p with
+  | none => exact w
+  | some kp =>
+    cases ex : h.kindOf x with
+    | none => cases kp <;> exact w
+    | some kx =>
+      cases kp with
+      | glyph =>
+        simp only
+        split
+        · exact w
+        · split
+          · exact wired_removeChild w ep
+          · exact w
+      | font =>
+        simp only
+        split
+        · exact w
+        · rename_i hgl
+          simp only [ne_eq, Decidable.not_not] at hgl
+          split
+          · rename_i hm
+            obtain ⟨nx, enx, knx⟩ := kindOf_some ex
+            obtain ⟨nf, ef, knf⟩ := kindOf_some ep
+            have ho := w.down p x ⟨nf, ef, Or.inl knf⟩ (by simp) hm
+            exact wired_removeFontGuideline w enx (by simp [knx, hgl, Kind.isLeaf]) ho ep
+          · exact w
+      | layerSet => exact w
+      | layer => exact w
+      | contour => exact w
+      | component => exact w
+      | anchor => exact w
+      | guideline => exact w
+      | image => exact w
+      | lib => exact w
+
+theorem step_clear {h : Heap} (w : Wired h) (p role) : Wired (step h (.clear p role)).1 := by
+  simp only [step]
+  cases ep : h.kindOf p with
+  | none => exact w
+  | some kp =>
+    cases kp with
+    | glyph =>
+      simp only
+      split
+      · exact (wired_clearRole w p role (Or.inl ep)).1
+      · exact w
+    | font =>
+      simp only
+      split
+      · rename_i hr; exact (wired_clearRole w p role (Or.inr ⟨ep, hr⟩)).1
+      · exact w
+    | layerSet => exact w
+    | layer => exact w
+    | contour => exact w
+    | component => exact w
+    | anchor => exact w
+    | guideline => exact w
+    | image => exact w
+    | lib => exact w
+
+theorem wired_clearAllCore {h : Heap} (w : Wired h) {g : Id} (kg : h.kindOf g = some .glyph) :
+    Wired (clearAllCore h g) := by
+  obtain ⟨w1, k1⟩ := wired_clearRole w g .contour (Or.inl kg)
+  have kg1 := k1 _ kg rfl
+  obtain ⟨w2, k2⟩ := wired_clearRole w1 g .component (Or.inl kg1)
+  have kg2 := k2 _ kg1 rfl
+  obtain ⟨w3, k3⟩ := wired_clearRole w2 g .anchor (Or.inl kg2)
+  have kg3 := k3 _ kg2 rfl
+  obtain ⟨w4, k4⟩ := wired_clearRole w3 g .guideline (Or.inl kg3)
+  generalize hh : clearRole (clearRole (clearRole (clearRole h g .contour) g .component) g .anchor) g .guideline = h4 at w4
+  have e : clearAllCore h g = if (h4.kidOfKind g .image).isSome then mark h4 g else h4 := by
+    unfold clearAllCore; rw [hh]
+  rw [e]
+  split
+  · exact wired_mark w4 g
+  · exact w4
+
+theorem step_clearAll {h : Heap} (w : Wired h) (g) : Wired (step h (.clearAll g)).1 := by
+  simp only [step, apply_ite Prod.fst]
+  split
+  · exact w
+  · rename_i kg
+    simp only [ne_eq, Decidable.not_not] at kg
+    exact wired_clearAllCore w kg
+
+theorem step_setList {h : Heap} (w : Wired h) (p role xs) : Wired (step h (.setList p role xs)).1 := by
+  simp only [step]
+  split
+  · exact w
+  · rename_i hok
+    simp only [not_or, Decidable.not_not] at hok
+    have hk : h.kindOf p = some .glyph ∨ (h.kindOf p = some .font ∧ role = .guideline) := by
+      have := hok.1
+      cases ep : h.kindOf p with
+      | none => simp [ep, setListOK] at this
+      | some kp => cases kp <;> simp [ep, setListOK] at this ⊢ <;> exact this
+    exact wired_insertAll xs (wired_clearRole w p role hk).1
+
+theorem step_touch {h : Heap} (w : Wired h) (p what) : Wired (step h (.touch p what)).1 := by
+  simp only [step]
+  split
+  · exact w
+  · rename_i hok
+    simp only [Bool.not_eq_true, Bool.not_eq_false] at hok
+    have we : Wired (ensure h p what) := by
+      refine wired_ensure w ?_ ?_ ?_
+      · intro hk; simp only [hk, touchOK, decide_eq_true_eq, Bool.or_eq_true] at hok
+        rcases hok with e | e <;> simp [e, Kind.isLeaf]
+      · intro hk; simpa [hk, touchOK] using hok
+      · intro hk; simpa [hk, touchOK] using hok
+    split <;> exact we
+
+theorem step_mutate {h : Heap} (w : Wired h) (x) : Wired (step h (.mutate x)).1 := by
+  simp only [step]
+  split
+  · exact w
+  · split
+    · exact wired_same w (fun i => by simp) (by simp)
+    · exact wired_same w (fun i => by simp [markPost]) (by simp [markPost])
+
+/-- every operation preserves the invariant -/
+theorem wired_step {h : Heap} (w : Wired h) (op : Op) : Wired (step h op).1 := by
+  cases op with
+  | newFont => exact step_newFont w
+  | openFont layers => exact step_openFont w layers
+  | newLayer f name => exact step_newLayer w f name
+  | delLayer f name => exact step_delLayer w f name
+  | renameLayer l name => exact step_renameLayer w l name
+  | newGlyph l name => exact step_newGlyph w l name
+  | getGlyph l name spec => exact step_getGlyph w l name spec
+  | delGlyph l name => exact step_delGlyph w l name
+  | renameGlyph g name => exact step_renameGlyph w g name
+  | insertGlyph l src name => exact step_insertGlyph w l src name
+  | new k => exact step_new w k
+  | newGlyphObj => exact wired_alloc w .glyph
+  | insert p x => exact wired_insertStep w p x
+  | remove p x => exact step_remove w p x
+  | clear p role => exact step_clear w p role
+  | clearAll g => exact step_clearAll w g
+  | setList p role xs => exact step_setList w p role xs
+  | touch p what => exact step_touch w p what
+  | mutate x => exact step_mutate w x
+  | clean => exact wired_same w (fun i => rfl) rfl
+  | dump => exact wired_cacheAll w
+
+theorem wired_run (ops : List Op) : ∀ {h : Heap}, Wired h → Wired (run h ops) := by
+  induction ops with
+  | nil => intro h w; exact w
+  | cons op ops ih => intro h w; exact ih (wired_step w op)
+
 end Parents
 end DefconModel
